@@ -53,6 +53,17 @@ CLAIMED = {
             "path or file id matches are selected, the two result lists partition the list in order. Persistence of "
             "conflict lists / merge hashes (rio stanzas, Rust, real trees) is outside.",
             "osutils.is_inside_any (Rust) replaced by a validated python model; tree.path2id is a stub"),
+    "C21": ("tip movement decision kernel (pull / push without fetching)",
+            "The real GenericInterBranch._update_revisions / _pull / _basic_push, Branch._check_if_descendant_or_diverged / "
+            "_revision_relations and BzrBranch.set_last_revision_info / _check_history_violation over a family of histories "
+            "with SYMBOLIC sizes (common trunk, extra revisions on each side, optional merge of the target tip into the "
+            "source, requested revision anywhere on the source's left-hand history): tip moves iff the requested revision "
+            "properly descends from it (or overwrite), stays when already contained, DivergedBranches otherwise, the "
+            "recorded revno is the left-hand length, append-only refuses moves that drop the old tip from the left-hand "
+            "history, revisions are fetched before the tip moves. The real graph algorithms, arbitrary DAGs, ghosts, bound "
+            "targets and fetching are outside.",
+            "graph answers (heads, distance, left-hand ancestry) are computed from the symbolic sizes; branches are stubs "
+            "around the real classes"),
     "C22": ("numeric revision specifiers (kernel)",
             "RevisionSpec.from_string(...).in_history(branch) for revno:n, bare n, negative n, last:n, before:n, "
             "before:revno:n, dotted revno:a.b.c and arbitrary short malformed text after 'revno:', with SYMBOLIC n, symbolic "
@@ -180,7 +191,6 @@ NOT_APPLICABLE = {
     "C17": "tree-level merges need real trees, TreeTransform and the compiled merge3/patiencediff matcher; the per-attribute decision rules are decided under C18",
     "C19": "the decision goes through merge3.Merge3 with patiencediff.PatienceSequenceMatcher (compiled, hashes lines), so file lines cannot be symbolic",
     "C20": "persistence is rio.Stanza (Rust) on a real tree; selection is hash-set membership over concrete paths plus osutils.is_inside_any (Rust)",
-    "C21": "classification is graph.heads() on a real revision graph (vcsgraph, compiled); with the graph abstracted away only a four-row decision table remains",
     "C22": "dotted revnos come from vcsgraph merge-sort (compiled) over DAG structure; specifier resolution needs a real branch",
     "C23": "two real branches, the commit pipeline and locks; histories are structure",
     "C32": "end-to-end equivalence of real repositories/branches over an in-process server; operation sequences and histories are structure (the wire codec itself is decided under C29/C30)",
